@@ -370,6 +370,8 @@ def wl_strings(ctx, rng, i):
                               "accepted %r but wrote non-canonical %r" % (text, got), {"input": text, "got": got, "precision": p, "constraint": c})
 
 
+# pure by their documentation: a sample of the calls is repeated in a fresh interpreter, in reverse order (stixmon/echo.py)
+ECHO = ['stix2.utils:format_datetime', 'stix2.utils:parse_into_datetime']
 WORKLOADS = [
     Workload("datetimes", wl_datetimes, quick=500, thorough=40000),
     Workload("strings", wl_strings, quick=150, thorough=12000),
@@ -395,7 +397,7 @@ MANIFEST = {
     "text": ("Every timestamp the real format_datetime/parse_into_datetime pair writes for generated datetimes, dates and "
              "strings (all six precision/constraint combinations) is compared with an integer-arithmetic formatter, and the "
              "truncation, digit-count, fixed-point and order clauses are asserted on the same outputs; the ambient layer "
-             "additionally watches every timestamp printed while the repository's own suite runs (thorough tier)."),
+             "additionally watches every timestamp printed while the repository's own suite runs (thorough tier). Echo monitor: a sample of the format/parse calls is repeated in a fresh interpreter in reverse order and must answer alike."),
     "note": "trusts stixmon/oracles/ts.py (selftested against datetime); explores a sample of the 3e17 instants, weighted to digit/year/offset boundaries",
-    "technique": "runtime monitoring: differential oracle (integer-arithmetic timestamp codec) on every call/return",
+    "technique": "runtime monitoring: differential oracle (integer-arithmetic timestamp codec) on every call/return; echo monitor (pure calls repeated in a fresh interpreter)",
 }
